@@ -3,6 +3,7 @@
 package main
 
 import (
+	"bytes"
 	"crypto/sha1"
 	"encoding/hex"
 	"fmt"
@@ -180,7 +181,7 @@ func (tc *tcase) view(rs *RangeSpec) (view []KV, base int, inverted bool) {
 // ---- per-case output, merged by the main goroutine in case order ----
 
 type curCheck struct {
-	Typ       string // build | open | probe | offsets | walk | retain | block | damage
+	Typ       string // build | order | open | probe | offsets | walk | retain | block | damage
 	TC        *tcase
 	Strict    opt.Strict
 	Probe     []byte
@@ -252,6 +253,36 @@ func merge(res *vlib.Result, o *caseOut) {
 	for _, v := range o.viols {
 		res.Violate(v.desc, v.cc.replay(v.desc))
 	}
+}
+
+// ---- check 0: the writer refuses a key that is not greater than the previous one ----
+
+// checkOrder appends tc.KVs (a prefix of a generated table) and then bad, a key <= the last key appended.
+func checkOrder(tc *tcase, bad []byte, out *caseOut) {
+	cc := &curCheck{Typ: "order", TC: tc, Probe: bad,
+		Expected: "Append of a key that is not greater than the previous key returns an error and adds no entry"}
+	out.setCur(cc)
+	var buf bytes.Buffer
+	w := table.NewWriter(&buf, tc.Cfg.Options(0), nil, 0)
+	for i, kv := range tc.KVs {
+		if err := w.Append(kv.K, kv.V); err != nil {
+			out.violate(fmt.Sprintf("Append #%d (key %s): %v", i, short(kv.K), err), cc)
+			return
+		}
+	}
+	n := len(tc.KVs)
+	if n == 0 {
+		return
+	}
+	if err := w.Append(bad, []byte("v")); err == nil {
+		out.violate(fmt.Sprintf("Append(%s) directly after Append(%s) is accepted: keys not in increasing order", short(bad), short(tc.KVs[n-1].K)), cc)
+		return
+	}
+	if w.EntriesLen() != n {
+		out.violate(fmt.Sprintf("EntriesLen()=%d after %d accepted and one refused Append", w.EntriesLen(), n), cc)
+		return
+	}
+	out.count("writer_out_of_order_refusals_checked", 1)
 }
 
 // ---- check 1+2: exact lookups and first-key->= lookups ----
